@@ -116,9 +116,16 @@ def check_ports(ctx, rng):
         # base ports of either parity and far from the defaults (the documented plan is base +0/+1/+2, +2 per child index, peer at +100)
         bts, bb = rng.choice([5700, 5800, 5701, 5803, 1025, 40001]), rng.choice([6700, 6900, 6701, 6903, 2049, 50000])
         extra = {7700: rng.choice([7700, 7701, 7900]), 8700: rng.choice([8700, 8703, 9001])}
-        defs = [(a, bts if p == 5700 else (bb if p == 6700 else extra.get(p, p)), i) for a, p, i in defs]
+        # the peers live on different hosts in half of the configurations (-R / -r and the address part of --trx): every link of a
+        # transceiver talks to ITS peer's address, children to their parent's
+        if rng.chance(1, 2):
+            addr_of = {5700: rng.choice(["127.0.0.1", "10.0.0.1"]), 6700: rng.choice(["127.0.0.2", "10.0.0.2"]), 7700: "10.1.0.7", 8700: "10.1.0.8"}
+        else:
+            addr_of = {5700: "127.0.0.1", 6700: "127.0.0.1", 7700: "127.0.0.1", 8700: "127.0.0.1"}
+        peer = [addr_of[5700], addr_of[6700]] + [addr_of[p] for a, p, i in defs]
+        defs = [(addr_of[p], bts if p == 5700 else (bb if p == 6700 else extra.get(p, p)), i) for a, p, i in defs]
         try:
-            s = Session(defs, bts, bb)
+            s = Session(defs, bts, bb, bts_addr=addr_of[5700], bb_addr=addr_of[6700])
         except Exception as e:  # noqa
             ctx.oracle_fail("the Application cannot be constructed from valid --trx definitions", dict(trx_defs=defs, exception="%s: %s" % (type(e).__name__, e)),
                             key="c12-constructor-raises:" + type(e).__name__)
@@ -135,12 +142,19 @@ def check_ports(ctx, rng):
                     ctx.oracle_fail("clock ownership does not follow the child index", dict(trx=str(t)), key="c12-clock-owner")
                 if plan != obs:
                     ctx.oracle_fail("sockets do not follow the documented port plan", dict(trx=str(t), trx_defs=defs), key="c12-ports", expected=plan, observed=obs)
+                k_ = s.trxs.index(t)
+                links = [t.ctrl_if, t.data_if] + ([t.clck_if] if t.clck_gen is not None else [])
+                if k_ < len(peer) and any(l.remote_addr != peer[k_] for l in links):
+                    ctx.oracle_fail("a link of a transceiver does not talk to its peer's address", dict(trx=str(t), trx_defs=defs, bts_addr=addr_of[5700], bb_addr=addr_of[6700]),
+                                    key="c12-peer-address", expected=peer[k_], observed=[l.remote_addr for l in links])
                 ctx.evaluations += 1
             ports = [p for t in s.trxs for p in ([t.ctrl_if.sock.bound[1], t.data_if.sock.bound[1]] + ([t.clck_if.sock.bound[1]] if t.clck_gen is not None else []))]
             if len(set(ports)) != len(ports):
                 ctx.oracle_fail("two sockets bound to the same port", dict(trx_defs=defs, ports=ports), key="c12-ports-collide")
             # clock indications reach exactly the links of running clock owners
-            s.ctrl(0, W.cmd("CMD RXTUNE 1")); s.ctrl(0, W.cmd("CMD TXTUNE 1")); s.ctrl(0, W.cmd("CMD POWERON"))
+            on = [k for k, t in enumerate(s.trxs) if t.clck_gen is not None and (k == 0 or rng.chance(1, 2))]
+            for k in on:
+                s.ctrl(k, W.cmd("CMD RXTUNE 1")); s.ctrl(k, W.cmd("CMD TXTUNE 1")); s.ctrl(k, W.cmd("CMD POWERON"))
             for t in s.trxs:
                 if t.clck_gen is not None:
                     t.clck_if.sock.sent.clear()
@@ -151,7 +165,8 @@ def check_ports(ctx, rng):
                 if t.clck_gen is None:
                     continue
                 got = [(bytes(d), r) for d, r in t.clck_if.sock.sent]
-                want = [(b"IND CLOCK 0\0", (t.remote_addr, t.base_port + 100))] if k == 0 else []
+                base_k = [bts, bb][k] if k < 2 else defs[k - 2][1]
+                want = [(b"IND CLOCK 0\0", (peer[k], base_k + 100))] if k in on else []
                 if got != want:
                     ctx.oracle_fail("clock indication not sent to exactly the running clock owners", dict(trx=str(t), trx_defs=defs), key="c12-clock-ind", expected=want, observed=got)
         finally:
